@@ -210,17 +210,19 @@ func (exec *BatchExecutor) handleRequest(ctx context.Context, req *kmip.RequestM
 
 // executeItemWithMiddleware executes a KMIP request batch item with the provided middleware.
 func (exec *BatchExecutor) executeItemWithMiddleware(ctx context.Context, bi *kmip.RequestBatchItem) (resp kmip.ResponseBatchItem) {
-	m := 0
-	var next BatchItemNext
-	next = func(ctx context.Context, bi *kmip.RequestBatchItem) (*kmip.ResponseBatchItem, error) {
-		if m < len(exec.biMiddlewares) {
-			biMdl := exec.biMiddlewares[m]
-			m++
-			return biMdl(next, ctx, bi)
+	// chain(m) is the continuation handed to the batch item middleware at position m-1: it runs the
+	// middlewares from position m onward, then executes the item. The position is bound to each
+	// continuation (not shared between them), so every invocation runs all the inner middlewares.
+	var chain func(m int) BatchItemNext
+	chain = func(m int) BatchItemNext {
+		return func(ctx context.Context, bi *kmip.RequestBatchItem) (*kmip.ResponseBatchItem, error) {
+			if m < len(exec.biMiddlewares) {
+				return exec.biMiddlewares[m](chain(m+1), ctx, bi)
+			}
+			return exec.executeItem(ctx, bi)
 		}
-		return exec.executeItem(ctx, bi)
 	}
-	respBi, err := next(ctx, bi)
+	respBi, err := chain(0)(ctx, bi)
 	if err != nil {
 		handleBatchItemError(ctx, respBi, err)
 	}
